@@ -341,6 +341,19 @@ def run(ctx):
                         ok, why = attrs_equal({k: img.attrs.get(k)}, {k: new.attrs.get(k)})
                         if not ok:
                             bad = "unnamed_key_changed/%s" % k
+            if bad is None:
+                # the result is a new image: working on it in place (pixels, per-channel metadata arrays) must not
+                # reach the original
+                try:
+                    new.values[...] = new.values + 1
+                    for k_ in ("illum_wavelen", "noise_sd", "illum_polarization"):
+                        v_ = new.attrs.get(k_)
+                        if isinstance(v_, xr.DataArray) and v_.ndim >= 1:
+                            v_.values[...] = v_.values * 2
+                except Exception:
+                    pass
+                if fp.fingerprint(img) != keep:
+                    bad = "original_shares_storage_with_result"
             if bad:
                 ctx.violation("update/%s" % bad, {"img": im, "keys": K})
             else:
@@ -395,6 +408,19 @@ def run(ctx):
             elif ms in results and (np.max(np.abs(results[ms][0] - got)) > 1e-12 * 255 or
                                     abs(results[ms][1] - float(av.noise_sd)) > 1e-12):
                 bad = "order_dependent"
+            if bad is None and ms not in results:
+                # ... and it is an image like any other: one HDF5 cycle gives it back (values, noise level, optics)
+                try:
+                    ph5 = os.path.join(tmp, "avg_cycle.h5")
+                    hp.save(ph5, av)
+                    back = hp.load(ph5)
+                    os.remove(ph5)
+                    ok_, why_ = attrs_equal({k_: (float(v_) if k_ == "noise_sd" else v_) for k_, v_ in av.attrs.items()},
+                                            {k_: (float(v_) if k_ == "noise_sd" and v_ is not None else v_) for k_, v_ in back.attrs.items()})
+                    if not np.array_equal(back.values, av.values) or not ok_:
+                        bad = "h5_cycle_of_average"
+                except Exception as ex:
+                    bad = "h5_cycle_of_average_exception"
             results.setdefault(ms, (got, float(av.noise_sd)))
             if bad:
                 ctx.violation("average/%s" % bad, {"order": order})
@@ -415,8 +441,12 @@ def run(ctx):
                     av = hp.core.io.load_average(files[:3], refimg=refx)
                 want = np.array(raw[:3]).mean(0)[1:3, 2:5]
                 got = np.asarray(av.transpose("z", "x", "y").values[0])
+                st_ = np.array(raw[:3])[:, 1:3, 2:5]
+                want_noise = float((st_.std(0) / st_.mean(0)).mean())       # of the returned (cropped) average
                 if got.shape != want.shape or np.max(np.abs(got - want)) > 1e-9:
                     ctx.violation("average/refimg_crop", {"spacing": sp, "got": got.tolist(), "want": want.tolist()})
+                elif abs(float(av.noise_sd) - want_noise) > 1e-12:
+                    ctx.violation("average/refimg_relative_noise", {"spacing": sp, "impl": float(av.noise_sd), "want": want_noise})
                 else:
                     ctx.trace_ok()
             except Exception as ex:
